@@ -39,9 +39,7 @@ def run(ctx):
     traces = ctx.exec_scenarios(binary, scen, "c06", shards=14, timeout=2400)
     if len(traces) != len(scen) and not any(t.get("crashed") for t in traces):
         raise Inconclusive("%d scenarios, %d traces" % (len(scen), len(traces)))
-    dead = [(t["id"], [e for e in t["events"] if e.get("event") == "DriverDead"]) for t in traces if any(e.get("event") == "DriverDead" for e in t["events"])]
-    if dead:
-        raise Inconclusive("driver could not complete scenarios %s" % dead[:3])
+    traces = ctx.drop_dead(traces)
     counts = {k: sum(1 for t in traces for e in t["events"] if e.get("event") == k) for k in ("Req", "Resp", "Frames")}
     nframes = sum(e["n"] for t in traces for e in t["events"] if e.get("event") == "Frames")
     for name in ("Req", "Resp", "Frames"):
